@@ -56,8 +56,9 @@ prop("C02", engine="eval", prefixes=["C02."], level="model_checking",
      mbt_extra_limit={"quick": 2500, "thorough": 60000},
      jobs=lambda tier: [("edit", dict()), ("flags", dict()),
                         ("dyn", dict(_worker="make_dyn_trace")),
+                        ("dyn-outer", dict(_worker="make_dyn_trace")),
                         ("inherit", dict(_worker="make_inh_trace"))],
-     quick=dict(traces=160, nops=30), thorough=dict(traces=4000, nops=45))
+     quick=dict(traces=200, nops=30), thorough=dict(traces=5000, nops=45))
 prop("C05", engine="eval", prefixes=["C05."], level="model_checking",
      mc=("MxEval", "MC_MxEval_quick.cfg", "MC_MxEval_thorough.cfg"),
      jobs=lambda tier: [("fail", dict(gen=dict(p_raise=0.2, p_none=0.1, p_catch=0.2, p_base_exc=0.3))),
@@ -152,8 +153,8 @@ prop("C04", engine="inh", worker="make_c04_trace", prefixes=["C04."], level="mod
 prop("C07", engine="inh", worker="make_dyn_trace", prefixes=["C07."], level="model_checking",
      mc=("MxDyn", "MC_MxDyn_quick.cfg", "MC_MxDyn_thorough.cfg"),
      mbt_opts={"deep": True, "handles": True}, mbt_limit={"quick": 3000, "thorough": 40000},
-     jobs=lambda tier: [("dyn", dict()), ("dyn", dict(gen=dict(p_uncached=0.4)))],
-     quick=dict(traces=192, nops=28), thorough=dict(traces=5000, nops=45),
+     jobs=lambda tier: [("dyn", dict()), ("dyn", dict(gen=dict(p_uncached=0.4))), ("dyn-outer", dict())],
+     quick=dict(traces=240, nops=28), thorough=dict(traces=6000, nops=45),
      also=["C02.NoStale", "C01.Transparent", "C06.ExactDiscard"])
 
 
